@@ -74,8 +74,8 @@ impl<'a> UnusedLiteralVisitor<'a> {
             .unwrap_or(0);
 
         // Find the end of the line (including the newline if present)
-        let line_end = src[position.end_offset..]
-            .find('\n')
+        let newline_offset = src[position.end_offset..].find('\n');
+        let line_end = newline_offset
             .map(|pos| position.end_offset + pos + 1)
             .unwrap_or(src.len());
 
@@ -84,6 +84,19 @@ impl<'a> UnusedLiteralVisitor<'a> {
         line_position.start_offset = line_start;
         line_position.end_offset = line_end;
         line_position.column = 0;
+
+        // Keep the end line and column in step with the end offset.
+        match newline_offset {
+            Some(_) => {
+                // The position now ends just after the newline, at
+                // the start of the next line.
+                line_position.end_line_number = position.end_line_number + 1;
+                line_position.end_column = 0;
+            }
+            None => {
+                line_position.end_column = position.end_column + (line_end - position.end_offset);
+            }
+        }
 
         line_position
     }
